@@ -2,7 +2,7 @@
    add / sub / neg, and the member set gamma.
 
    Hand-written from claripy/backends/backend_vsa/strided_interval.py (StridedInterval.__init__,
-   normalize, top, is_integer, _wrapped_overflow_add, add, sub, neg).  Integer-level helpers
+   normalize, top, is_integer, _wrapped_overflow_add, add, sub (with the alignment of the subtrahend), neg).  Integer-level helpers
    (_modular_add, _modular_sub, max_int, _wrapped_cardinality) are NOT re-written here: the model calls
    the definitions in Gen/SIHelpers.v that tools/py2coq.py regenerates from the source on every run.
 
@@ -58,7 +58,8 @@ Definition si_add (a b : si) : res si :=
   do r <- mk nb (Z.gcd (stride a) (stride b)) l u;
   normalize r.
 
-Definition si_sub (a b : si) : res si :=
+(* sub without its first step: the bounds of the difference from the bounds of both operands *)
+Definition si_sub_core (a b : si) : res si :=
   if negb (bits a =? bits b) then Err Unmodelled else
   let nb := Z.max (bits a) (bits b) in
   do ov <- wrapped_overflow_add a b;
@@ -67,6 +68,20 @@ Definition si_sub (a b : si) : res si :=
   do u <- si_modular_sub (ub a) (lb b) nb;
   do r <- mk nb (Z.gcd (stride a) (stride b)) l u;
   normalize r.
+
+(* the first step of sub: the subtrahend with its last member as upper bound (its upper bound need not be a member) *)
+Definition align_ub (b : si) : res si :=
+  if (0 <? stride b) && negb (bot b) then
+    do sp <- si_modular_sub (ub b) (lb b) (bits b);
+    do r <- py_mod sp (stride b);
+    do last <- si_modular_add (lb b) (sp - r) (bits b);
+    if last =? ub b then Ok b else mk (bits b) (stride b) (lb b) last
+  else Ok b.
+
+Definition si_sub (a b : si) : res si :=
+  if negb (bits a =? bits b) then Err Unmodelled else
+  do b' <- align_ub b;
+  si_sub_core a b'.
 
 Definition si_neg (a : si) : res si :=
   do z <- mk (bits a) 0 0 0;
